@@ -395,6 +395,18 @@ func readSlicesCases(c *run.Ctx) bool {
 						c.Violate("readslices-mock-result", fmt.Sprintf("call %d gave (%q, %q, %v), failure=%v", i, m, tp, err, failed), nil)
 						return false
 					}
+					// what the double hands out is the consumer's: overwriting it (as a read
+					// loop that decodes in place does) must leave the expectation alone
+					for j := range m {
+						m[j] = '!'
+					}
+					for j := range tp {
+						tp[j] = '!'
+					}
+					if want[i].Message[0] != byte('a'+i) || want[i].Topic != fmt.Sprint("t", i) {
+						c.Violate("readslices-mock-aliases", fmt.Sprintf("overwriting the slices of call %d changed the caller's Transfer to (%q, %q)", i, want[i].Message, want[i].Topic), nil)
+						return false
+					}
 				} else if !failed || err == nil {
 					c.Violate("mock-verdict-wrong", fmt.Sprintf("NewReadSlicesMock: surplus call %d of %d recorded failure=%v err=%v", i, nWant, failed, err), nil)
 					return false
